@@ -202,6 +202,7 @@ func (oc *onceCloseListener) close() {
 
 func (s *Server) trackConn(c *connection, isAdd bool) {
 	// this is how http.Server does it
+	simBeforeLock(&s.mu, true)
 	s.mu.Lock()
 	defer s.mu.Unlock()
 
@@ -279,6 +280,7 @@ func (c *connection) handle(ctx context.Context) {
 
 // Addr returns currently running server address
 func (s *Server) Addr() net.Addr {
+	simBeforeLock(&s.mu, false)
 	s.mu.RLock()
 	defer s.mu.RUnlock()
 
@@ -288,6 +290,7 @@ func (s *Server) Addr() net.Addr {
 // Shutdown gracefully shuts down the server without interrupting any active connections.
 // Works similarly as `http.Server.Shutdown()`
 func (s *Server) Shutdown(ctx context.Context) error {
+	simBeforeLock(&s.mu, true)
 	s.mu.Lock()
 	defer s.mu.Unlock()
 	s.isShutdown.Store(true)
